@@ -462,6 +462,13 @@ def run_property(prop, tier, seed, verbose=False, write_evidence=True):
             fv.owner = owner.label
             fv.result = {}
             fv.meta = {}
+            fn_ = getattr(owner, "fn", None)
+            if getattr(fn_, "no_concrete_replay", False) or getattr(owner, "no_concrete_replay", False):
+                # a client program that only makes sense on its ghost models (executors, queues): there is no concrete
+                # run to fall back to, so the edited code is simply not decided
+                undecided.append((fv.oid, {"attempts": ["engine-not-applicable"], "reason": msg[:200]}))
+                run.proof_lost.append("%s (%s)" % (owner.label, msg))
+                continue
             wit = try_replay(run, fv, rng, 400 if tier == "quick" else 4000)
             if wit is not None:
                 os.makedirs(replay_dir, exist_ok=True)
